@@ -103,7 +103,11 @@ func attribute(c *CaseResult, line int) (fn string, item string, itemKind string
 }
 
 // c01Judge applies the C01 oracle to one case and reports violations.
-func c01Judge(rep *core.Report, c *CaseResult) {
+func c01Judge(rep *core.Report, c *CaseResult) { c01JudgeOpt(rep, c, false) }
+
+// c01JudgeOpt: foreign = the input is not one of the well-formed generated scenarios (C14's faulty
+// inputs); a package that does not compile even WITHOUT the output is then simply not judged.
+func c01JudgeOpt(rep *core.Report, c *CaseResult, foreign bool) {
 	s := c.S
 	rep.Eval(1)
 	if c.Run.TimedOut {
@@ -135,6 +139,10 @@ func c01Judge(rep *core.Report, c *CaseResult) {
 			msg := ""
 			if ld != nil && len(ld.Errs) > 0 {
 				msg = ld.Errs[0]
+			}
+			if foreign {
+				rep.Count("faulty_input_package_does_not_compile_by_itself_not_judged", 1)
+				return
 			}
 			rep.Inconclusive("scenario package " + s.ID + " does not compile by itself: " + msg)
 			return
@@ -246,6 +254,58 @@ func RunC01(e *core.Env) int {
 		cb.RunTool(e, true)
 		for _, c := range cb.Cases {
 			c01Judge(rep, c)
+		}
+	}
+	// C14's faulty inputs (notation text, callbacks, signatures, operand and field kinds): whichever of them
+	// is ACCEPTED must produce code that compiles, too
+	{
+		// a FIXED list (same in every tier and for every seed): C14 explores the seeded variety for its own
+		// property; here the list is a regression corpus whose every accepted member has been looked at
+		var sel []*scen.Scenario
+		for _, s := range scen.GenFuzz(core.Rand(20260926, "c01-faulty-inputs"), 2400) {
+			plain := s.Features["nomodule"] != "1" && s.Features["argv_set"] != "1"
+			// out of the property's scope: generic operand types; the text of a :literal is the user's own Go
+			// expression (the tool copies it verbatim and cannot be asked to prove it valid)
+			if strings.Contains(s.InjectClass, "generic") || strings.Contains(s.InjectClass, "literal") || s.Features["notation"] == "literal" {
+				plain = false
+			}
+			// the property's premise: the setup file is excluded from the ordinary build by its build tag
+			if !strings.Contains(s.Files[s.Setup], "//go:build convergen\n") {
+				plain = false
+			}
+			for rel := range s.Files {
+				if !strings.HasPrefix(rel, s.PkgRel+"/") || strings.Count(rel, "/") != 1 {
+					plain = false
+				}
+			}
+			if plain {
+				sel = append(sel, s)
+			}
+		}
+		for start, bi := 0, 0; start < len(sel); start, bi = start+400, bi+1 {
+			end := start + 400
+			if end > len(sel) {
+				end = len(sel)
+			}
+			cb, err := NewBatch(e, fmt.Sprintf("fuzz-b%d", bi), sel[start:end])
+			if err != nil {
+				rep.Inconclusive("fuzz batch: " + err.Error())
+				continue
+			}
+			cb.RunTool(e, true)
+			for _, c := range cb.Cases {
+				rep.Count("faulty_inputs_run", 1)
+				if c.Run.Exit == 0 && c.Out != nil && !c.Run.TimedOut {
+					// the setup package itself (convergen tag on, output withheld) has to type-check: what the
+					// tool carries over from a setup file that is broken Go is not the tool's doing
+					if v, err := LoadSetupView(c); err != nil || len(v.Loaded.Errs) > 0 {
+						rep.Count("faulty_input_setup_package_has_type_errors_not_judged", 1)
+						continue
+					}
+					rep.Count("faulty_inputs_accepted_and_judged", 1)
+					c01JudgeOpt(rep, c, true)
+				}
+			}
 		}
 	}
 	// inputs that ought to be refused (C10's ill-fitting hooks): whichever of them IS accepted must compile
